@@ -34,7 +34,7 @@ def opOfJson (j : Json) : Option Op :=
 def progOfJson (j : Json) : Prog :=
   { ops := (getArr j "ops").filterMap opOfJson
     ret := match getStr j "ret" with
-      | "null" => .null | "scalar" => .scalar | "array" => .array | "fresh" => .fresh | _ => .bs
+      | "null" => .null | "scalar" => .scalar | "array" => .array | "fresh" => .fresh | "nan" => .nan | _ => .bs
     native := getStr j "lang" == "native"
     partialOnFail := getBool j "partial" }
 
